@@ -1,5 +1,5 @@
 CONSTANTS
   MaxSteps = 7
 SPECIFICATION Spec
-INVARIANTS NavTheorem FailTheorem EmitCase
+INVARIANTS NavTheorem FailTheorem RevisitTheorem EmitCase
 CHECK_DEADLOCK FALSE
